@@ -5,7 +5,7 @@ from hypothesis import strategies as st
 
 from ..common import CaseInfo, Violation
 from ..market_machine import market_cases
-from ._market_common import frac, make_check
+from ._market_common import frac, fuzz_part, make_check
 
 warnings.simplefilter("ignore")
 from pams.order import LIMIT_ORDER, MARKET_ORDER, Order  # noqa: E402
@@ -20,7 +20,8 @@ RULE = ("(machine) histories as for C01 plus re-submission of accepted order obj
         "constructor arguments: invalid combinations raise ValueError, valid ones construct. (sim) whole simulations in "
         "which a scripted agent re-submits an accepted order, forges another agent's id or cancels another agent's "
         "order: the run must refuse (raise) and accept nothing.")
-ASSUMPTIONS = ["the owner checks are made by the runner (spoofing check), the market/at-most-once checks by Market._add_order"]
+ASSUMPTIONS = ["thorough tier adds a coverage-guided atheris campaign over byte-decoded histories (16 processes, half from an empty corpus); its saved decoded case, not the campaign, is the reproducible unit",
+               "the owner checks are made by the runner (spoofing check), the market/at-most-once checks by Market._add_order"]
 
 
 def _nt(f):
@@ -61,10 +62,12 @@ PARTS = {
     "ctor": {"check": ctor_check, "strategy": lambda tier: ctor_cases, "budget": {"quick": 2000, "thorough": 20000}},
 }
 
+PARTS["fuzz"] = fuzz_part("C04", {"C04"}, _nt)
+
 
 def vacuity(merged, tier):
-    for cls, lim in (("cancel_after_partial", 0.05), ("expire_after_partial", 0.05), ("resubmit_refused", 0.2),
-                     ("foreign_refused", 0.2), ("cancel_of_dead_order", 0.2)):
+    for cls, lim in (("cancel_after_partial", 0.02), ("expire_after_partial", 0.02), ("resubmit_refused", 0.08),
+                     ("foreign_refused", 0.08), ("cancel_of_dead_order", 0.08)):
         if frac(merged, "machine", cls) < lim:
             return f"class {cls} below {lim:.0%} of histories"
     return None
